@@ -4,9 +4,9 @@
    "Total for arbitrary TEXT" is decided by the run of harness/suites/C14.py, not by
    a theorem (PyYAML, the expression grammars and `re` are outside the model). *)
 From Coq Require Import List String ZArith Bool.
-Require Import Mistral.Model.Jv Mistral.Model.Slice Mistral.Model.Norm Mistral.Model.Schema Mistral.Model.Build.
-Require Import Mistral.Gen.Schemas.
-Require Import Mistral.Proofs.SliceProofs Mistral.Proofs.NormProofs Mistral.Proofs.BuildProofs.
+Require Import Mistral.Model.Jv Mistral.Model.Slice Mistral.Model.Norm Mistral.Model.Schema Mistral.Model.Build Mistral.Model.SpecCache.
+Require Import Mistral.Gen.Schemas Mistral.Gen.SpecCache.
+Require Import Mistral.Proofs.SliceProofs Mistral.Proofs.NormProofs Mistral.Proofs.BuildProofs Mistral.Proofs.SpecCacheProofs.
 Import ListNotations.
 Open Scope string_scope.
 
@@ -182,6 +182,57 @@ Theorem C14_guards_regression :
   fst (walk_wb re0 pp0 fl0 (JObj [("version", JNum 2 1); ("name", JStr "wb")])) = VOk.
 Proof. exact regression_old_witnesses. Qed.
 Print Assumptions C14_guards_regression.
+
+(* ---- coherence of the specification cache with the stored definitions ---- *)
+
+(* For ANY configuration whose key component contains a field that identifies the stored content
+   (the checksum when both services fill it) and for EVERY sequence of create / update / workbook
+   upsert / clock tick / eviction / lookup: each lookup (workflow start, sub-workflow start,
+   trigger creation) yields the specification stored at that moment - the cached execution is
+   the uncached execution, for standalone and workbook workflows alike. *)
+Theorem C14_cache_coherent_exact : forall c os,
+  exact_cfg c = true -> coherent (exec c init os) = true.
+Proof. exact coherent_exact. Qed.
+Print Assumptions C14_cache_coherent_exact.
+
+(* The configuration GENERATED from the source (key component of the four call sites; which row
+   fields services/workflows.py and services/workbooks.py write) - since fix 8a6d13a7 the key is
+   (updated_at, checksum) and both services fill the checksum: coherent for EVERY sequence,
+   without any hypothesis (in particular for updates within the same second). *)
+Theorem C14_cache_coherent : forall os, coherent (exec gen_cfg init os) = true.
+Proof. exact gen_coherent. Qed.
+Print Assumptions C14_cache_coherent.
+
+(* a key that contains updated_at (the code before the fix) is coherent for the sequences that do
+   not update one definition twice within the same second *)
+Theorem C14_cache_coherent_spaced : forall c os,
+  has_field FUpdatedAt (key_fields c) = true -> spaced c init os = true ->
+  coherent (exec c init os) = true.
+Proof. exact coherent_spaced. Qed.
+Print Assumptions C14_cache_coherent_spaced.
+
+(* the four call sites pass the same key component *)
+Theorem C14_cache_sites_agree :
+  forallb (fun s => key_eqb (map (fun f => Some (match f with FUpdatedAt => 0 | FChecksum => 1 | FContent => 2 end)) (snd s))
+                            (map (fun f => Some (match f with FUpdatedAt => 0 | FChecksum => 1 | FContent => 2 end)) (key_fields gen_cfg)))
+          gen_sites = true /\ List.length gen_sites = 4.
+Proof. exact gen_sites_agree. Qed.
+Print Assumptions C14_cache_sites_agree.
+
+(* regression (the code before fix 8a6d13a7): updated_at alone does not identify the content - two
+   updates within one second with a start in between, the second start runs the first update's
+   specification and an eviction changes the run; with the generated key the same history is coherent *)
+Theorem C14_cache_refuted_same_second :
+  exec_ops cfg_updated_at same_second = [(2, 2); (2, 3); (3, 3)] /\
+  exec_ops gen_cfg same_second = [(2, 2); (3, 3); (3, 3)].
+Proof. exact refuted_same_second_and_fixed. Qed.
+Print Assumptions C14_cache_refuted_same_second.
+
+(* a checksum key while the workbook service does not fill the checksum: any update after a start *)
+Theorem C14_cache_refuted_checksum_not_filled :
+  exec_ops cfg_checksum_only update_after_start = [(1, 1); (1, 2); (2, 2)].
+Proof. exact refuted_checksum_not_filled. Qed.
+Print Assumptions C14_cache_refuted_checksum_not_filled.
 
 (* a non-trivial document that is accepted after ten schema validations (list, workflow,
    task-defaults, policies, one-line retry, two tasks, an on-clause) *)
